@@ -9,8 +9,8 @@
              hence an ORACLE: the model only checks that it is a permutation of 0..len(Lij)-1)
    The code draws every randint before the first permutation, so the recorded stream splits
    by kind without loss.  P, Si/So/S and their updates only feed argsort and are not modelled:
-   their whole influence is the oracle order -- and, for an integer-dtype W, the UFuncTypeError
-   that `P[i[o], :] *= f` raises at the first dealt weight (modelled: outcome CastError).
+   their whole influence is the oracle order (the routine works on `W.astype(float)`, so the dtype
+   of the argument plays no role).
 
    Further float-decided inputs (oracles, taken from the run; theorems quantify over all values):
      close : the result of np.allclose(W, W.T) -- only consulted when W is not exactly symmetric
@@ -164,28 +164,22 @@ Record nm_result := { nm_W0 : mat Z; nm_corr : list (Z * Z * Z); nm_Wr : mat Z;
 Inductive nm_outcome :=
 | Returned (r : nm_result)
 | ParamError     (* raise BCTParamError("Input must be undirected") *)
-| NoQuad         (* the rewiring never gets four distinct nodes: RecursionError (always for n <= 3) *)
+| NoQuad         (* the recorded randint draws end while the node picker is still retrying (model-level out-of-fuel) *)
 | BadPeriod      (* round(1/wei_freq) < 1, or an oracle value that is not a rounding of 1/wei_freq *)
-| CastError      (* integer-dtype W, wei_freq != 0, at least one weight: `P[i[o], :] *= f` raises UFuncTypeError *)
 | DealError.     (* an argsort / permutation oracle of the wrong shape, or too few of them *)
 
-(* is there a weight to deal (on the cells the routine works on)? *)
-Definition has_weight (und : bool) (n : nat) (Wc : mat Z) : bool :=
-  existsb (fun c => negb (Z.eqb (at_ Wc c) 0)) (univ und n).
-
-Definition null_model (und : bool) (n : nat) (W : mat Z) (isint close : bool) (bin_swaps : nat)
+Definition null_model (und : bool) (n : nat) (W : mat Z) (close : bool) (bin_swaps : nat)
   (wf : Q) (pf : Z) (ints : list Z) (ords perms : list (list nat)) : nm_outcome :=
   if (und && negb (symb n W || close))%bool then ParamError else     (* if not np.allclose(W, W.T): raise *)
   let Wc := tab 0 n n (clear_diag W) in
   (* if np.size(np.where(Ap.flat)) < n*(n-1): rewire the sign pattern *)
   let rew := (length (supp false n 1 Wc) <? n * (n - 1))%nat in
-  if (rew && runs_out und n (n_iter und n bin_swaps) Wc ints)%bool then NoQuad else
+  if (rew && randmio_runs_out und n Wc bin_swaps ints)%bool then NoQuad else
   let '(Wr, rest, tr) :=
     if rew then randmio_signed und n Wc bin_swaps ints else (Wc, ints, []) in
   match period_or wf pf with
   | None => BadPeriod
   | Some per =>
-    if (isint && negb (Nat.eqb per 0) && has_weight und n Wc)%bool then CastError else
     match deal_sign und n per 1 Wc Wr zero_mat ords perms with
     | None => DealError
     | Some (W1, ords1, perms1) =>
@@ -223,17 +217,16 @@ Definition oracles_ok_sign (period m : nat) (ords perms : list (list nat))
 Inductive nm_run :=
 | RunOk (W0 : list (list Z)) (corr : list (Z * Z * Z)) (Wr : list (list Z))
         (tr : list (list nat * list (list Z))) (unread : nat * (nat * nat))
-| RunRaise (code : nat).   (* 1 ParamError, 2 NoQuad, 3 BadPeriod, 4 CastError, 5 DealError *)
+| RunRaise (code : nat).   (* 1 ParamError, 2 NoQuad, 3 BadPeriod, 5 DealError *)
 
-Definition run_null_model (und : bool) (rows : list (list Z)) (isint close : bool) (bin_swaps : nat)
+Definition run_null_model (und : bool) (rows : list (list Z)) (close : bool) (bin_swaps : nat)
   (wf : Q) (pf : Z) (ints : list Z) (ords perms : list (list nat)) : nm_run :=
   let n := length rows in
-  match null_model und n (of_rows 0 rows) isint close bin_swaps wf pf ints ords perms with
+  match null_model und n (of_rows 0 rows) close bin_swaps wf pf ints ords perms with
   | Returned r => RunOk (zrows n (nm_W0 r)) (nm_corr r) (zrows n (nm_Wr r))
                         (map (fun e => (quad_list (fst e), zrows n (snd e))) (nm_trace r)) (nm_unread r)
   | ParamError => RunRaise 1
   | NoQuad => RunRaise 2
   | BadPeriod => RunRaise 3
-  | CastError => RunRaise 4
   | DealError => RunRaise 5
   end.
